@@ -614,8 +614,16 @@ class _Exporter:
             )
         )
         if use_loop_cond:
-            rows.extend(self._emit_assign(cond_in, cond_out, indent + 1))
-        rows.extend(self._emit_assign(formal_ins, formal_outs, indent + 1))
+            # The condition and the state variables are updated together: the body may hand
+            # the current condition on to a state variable, or a state variable on to the
+            # next condition.
+            rows.extend(
+                self._emit_assign(
+                    [cond_in, *formal_ins], [cond_out, *formal_outs], indent + 1
+                )
+            )
+        else:
+            rows.extend(self._emit_assign(formal_ins, formal_outs, indent + 1))
         rows.extend(self._emit_assign(actual_outs, formal_ins, indent))
 
         # TODO: This doesn't handle scan-outputs yet.
